@@ -134,7 +134,7 @@ fn record(o: &Obs, st: &mut Stats, root: String, ops: Vec<String>) {
 }
 
 pub fn run(run: &mut Run) -> &'static str {
-    let cases = run.tier.pick(60_000, 3_000_000);
+    let cases = run.tier.pick(240_000, 6_000_000);
     run.proptest_part("games", RULE, hist_case(4..200), cases, |case: &HistCase, st: &mut Stats| {
         let mut obs = Obs::default();
         let mix = match case {
@@ -156,7 +156,7 @@ pub fn run(run: &mut Run) -> &'static str {
         }
         Ok(())
     });
-    let cases = run.tier.pick(20_000, 1_000_000);
+    let cases = run.tier.pick(80_000, 2_000_000);
     run.proptest_part("with_null_moves", RULE, hist_case(4..200), cases, |case: &HistCase, st: &mut Stats| {
         let mut obs = Obs { with_nulls: true, ..Obs::default() };
         let cfg = Config {
